@@ -217,6 +217,76 @@ func wrapSub(b *prog.Builder, scope string, d int, inner func(sc string) (string
 	return p
 }
 
+// OtherWriterShapes: a token evaluates a condition, ANOTHER token then writes the variable a
+// later condition of the first token reads (the write is ordered before the read by the
+// process structure: a parallel join, or the end of an embedded sub-process the first token
+// waits in).  kind: "and" | "sub".
+func OtherWriterShapes(kind string) []*prog.Program {
+	var out []*prog.Program
+	for _, early := range []bool{true, false} {
+		b := prog.NewBuilder(fmt.Sprintf("other_writer_%s_early%v", kind, early))
+		s := b.AddNode("start", "")
+		t0 := b.AddNode("task", "")
+		b.N(t0).Writes = []string{"a"}
+		b.P.Dom["a"] = []int{0, 1}
+		b.P.Vars0["a"] = 0
+		b.P.Dom["v"] = []int{0, 1, 2}
+		b.P.Vars0["v"] = 0
+		b.Connect(s, t0, prog.Cond{})
+		prev := t0
+		if early {
+			// a first decision on another variable: the token has evaluated conditions before
+			g1 := b.AddNode("xor", "")
+			m1 := b.AddNode("xor", "")
+			u := b.AddNode("task", "")
+			b.Connect(t0, g1, prog.Cond{})
+			b.Connect(g1, u, prog.Cond{K: "eq", V: "a", C: 1})
+			b.N(g1).Default = b.Connect(g1, m1, prog.Cond{})
+			b.Connect(u, m1, prog.Cond{})
+			prev = m1
+		}
+		var after string
+		if kind == "sub" {
+			p := wrapSub(b, "", 1, func(sc string) (string, string) {
+				d := b.AddNode("task", sc)
+				b.N(d).Writes = []string{"v"}
+				return d, d
+			})
+			b.Connect(prev, p, prog.Cond{})
+			after = p
+			b.P.Tags = append(b.P.Tags, "sub")
+		} else {
+			f := b.AddNode("and", "")
+			j := b.AddNode("and", "")
+			d := b.AddNode("task", "")
+			b.N(d).Writes = []string{"v"}
+			w := b.AddNode("task", "")
+			b.Connect(prev, f, prog.Cond{})
+			b.Connect(f, w, prog.Cond{})
+			b.Connect(f, d, prog.Cond{})
+			b.Connect(w, j, prog.Cond{})
+			b.Connect(d, j, prog.Cond{})
+			after = j
+			b.P.Tags = append(b.P.Tags, "and")
+		}
+		g2 := b.AddNode("xor", "")
+		b.Connect(after, g2, prog.Cond{})
+		for c := 1; c <= 2; c++ {
+			x := b.AddNode("task", "")
+			e := b.AddNode("end", "")
+			b.Connect(g2, x, prog.Cond{K: "eq", V: "v", C: c})
+			b.Connect(x, e, prog.Cond{})
+		}
+		y := b.AddNode("task", "")
+		e := b.AddNode("end", "")
+		b.N(g2).Default = b.Connect(g2, y, prog.Cond{})
+		b.Connect(y, e, prog.Cond{})
+		b.P.Tags = append(b.P.Tags, "xor", "other-writer")
+		out = append(out, b.Done())
+	}
+	return out
+}
+
 // SubShapes: the sub-process corpus of C12 beyond random wrapping.
 func SubShapes() []*prog.Program {
 	var out []*prog.Program
